@@ -74,6 +74,10 @@ func runC12(c *Ctx) error {
 		case 2:
 			f.withErrors = true
 			f.actionMode = 1
+			// statement lists: after a complete statement the parser reduces with 'error' as
+			// look-ahead, which is where "has an entry for error" and "can shift error" part
+			fam := []string{"stmts", "errorder"}[(gi/3)%2]
+			f.family = func(int) string { return fam }
 		}
 		js := genSynJobs(rng, 1, fmt.Sprintf("b%02d_", gi), f)
 		if len(js) == 0 {
